@@ -88,3 +88,42 @@ pub struct W3b;
 /// b.write_all(&[0; 8]);
 /// ```
 pub struct W4;
+
+
+/// W5 — the flush bookkeeping of `DirSection` cannot be altered from outside the crate (C09: the flushed mark and the
+/// start offset are written only by `new`/`write_to_file`).
+/// ```compile_fail,E0616
+/// let mut b = minidump_writer::mem_writer::Buffer::with_capacity(0);
+/// let mut out = std::io::Cursor::new(Vec::<u8>::new());
+/// let mut d = minidump_writer::dir_section::DirSection::new(&mut b, 1, &mut out).unwrap();
+/// d.last_position_written_to_file = 100;
+/// ```
+/// ```compile_fail,E0616
+/// let mut b = minidump_writer::mem_writer::Buffer::with_capacity(0);
+/// let mut out = std::io::Cursor::new(Vec::<u8>::new());
+/// let mut d = minidump_writer::dir_section::DirSection::new(&mut b, 1, &mut out).unwrap();
+/// d.destination_start_offset = 7;
+/// ```
+/// twin:
+/// ```no_run
+/// let mut b = minidump_writer::mem_writer::Buffer::with_capacity(0);
+/// let mut out = std::io::Cursor::new(Vec::<u8>::new());
+/// let mut d = minidump_writer::dir_section::DirSection::new(&mut b, 1, &mut out).unwrap();
+/// d.write_to_file(&mut b, None).unwrap();
+/// ```
+pub struct W5;
+
+/// W6 — a `PtraceDumper` cannot be fabricated or have its `threads_suspended` flag flipped from outside (C03: whether a
+/// detach is owed is decided only by suspend_threads/resume_threads).
+/// ```compile_fail,E0616
+/// fn f(d: &mut minidump_writer::ptrace_dumper::PtraceDumper) {
+///     d.threads_suspended = false;
+/// }
+/// ```
+/// twin:
+/// ```no_run
+/// fn f(d: &mut minidump_writer::ptrace_dumper::PtraceDumper) {
+///     d.resume_threads(error_graph::strategy::DontCare);
+/// }
+/// ```
+pub struct W6;
